@@ -22,6 +22,7 @@ func init() {
 	vrt.Register("C04_user_functions", UserFunctions)
 	vrt.Register("C04_token_programs", TokenPrograms)
 	vrt.Register("C04_library_helpers", LibraryHelpers)
+	vrt.Register("C04_nested_render", NestedRender)
 }
 
 type S struct {
@@ -397,4 +398,46 @@ func LibraryHelpers() {
 	}
 	h := hs[vrt.Choice(len(hs))]
 	total("<%= "+h+" %>", ctx)
+}
+
+// a Go helper that renders a snippet through its helper context (help.Render), a
+// partial, and a block helper evaluating its block in a fresh child context: every
+// construct of the language inside them, over every value kind
+func NestedRender() {
+	ctx := plush.NewContext()
+	ctx.Set("a", val(vrt.Choice(nKinds)))
+	ctx.Set("xs", []int{1, 2})
+	ctx.Set("people", []S{{Name: "p"}, {Name: "q"}})
+	ctx.Set("team", func() S { return S{Name: "t"} })
+	ctx.Set("rend", func(s string, help plush.HelperContext) (template.HTML, error) {
+		out, err := help.Render(s)
+		return template.HTML(out), err
+	})
+	ctx.Set("inchild", func(help plush.HelperContext) (template.HTML, error) {
+		out, err := help.BlockWith(help.New())
+		return template.HTML(out), err
+	})
+	snippets := []string{
+		"<%= a %>",
+		"<%= for (v) in xs { %><%= v %><% } %>",
+		"<%= for (k, v) in a { %><%= v %><% } %>",
+		"<%= people[1].Name %>",
+		"<%= team().Name %>",
+		"<%= a[0].Name %>",
+		"<%= a.Hello() %>",
+		"<% let f = fn(x) { return x } %><%= f(a) %>",
+		"<% let y = a %><%= if (y) { %>t<% } %>",
+		"<%= len(a) %>",
+	}
+	sn := snippets[vrt.Choice(len(snippets))]
+	ctx.Set("sn", sn)
+	ctx.Set("partialFeeder", func(string) (string, error) { return sn, nil })
+	switch vrt.Choice(3) {
+	case 0:
+		total("<%= rend(sn) %>", ctx)
+	case 1:
+		total("<%= partial(\"p\") %>", ctx)
+	default:
+		total("<%= inchild() { %>"+sn+"<% } %>", ctx)
+	}
 }
